@@ -165,6 +165,7 @@ pub fn book_evidence(rep: &RunReport) -> (Value, Vec<String>) {
         "counters": rep.cov,
         "vacuous_counters": vac,
         "digest_reruns_compared": rep.rerun_checked,
+        "scenarios_skipped": rep.skipped,
         "other_property_violations_seen": rep.other_props,
         "known_findings_matched": rep.known.iter().map(|k| k.0.clone()).collect::<Vec<_>>(),
         "explanation": "every transition is one execution of the real execute entry point on a copy of a reachable storage state; the reference prediction is compared with the actual outcome on each, so traces_validated_against_impl equals the transition count",
